@@ -36,7 +36,27 @@ impl Params {
 
 /// Mirror of main.rs create_archive, streaming-queue mode (the default), non-adaptive.
 pub fn create_archive(inputs: &[PathBuf], output: &Path, p: &Params) -> Result<(), String> {
+    create_archive_ext(inputs, output, p, &[], false)
+}
+
+/// Harness marker in the verif event log (no-op when logging is off). The harness is always built
+/// with `--cfg ragc_verif` (see `check`), which is what exports `ragc_core::verif_hooks`.
+fn mark(kind: &'static str) {
+    ragc_core::verif_hooks::ev(kind, [0; 4]);
+}
+
+/// `create_archive` with (a) extra `sync_and_flush("X")` calls: one for every occurrence of `i` in
+/// `extra_syncs` after input file `i` was pushed (multi-file mode only; for `i = 0` after the regular
+/// drain + sync_and_flush), each preceded by the log marker `h.extra`; (b) with `mark_waits`, the log
+/// marker `h.wait` right after every `drain()` / `sync_and_flush()` returned (the producer saw an
+/// empty queue; no push can intervene because the producer is the only pusher).
+pub fn create_archive_ext(inputs: &[PathBuf], output: &Path, p: &Params, extra_syncs: &[usize], mark_waits: bool) -> Result<(), String> {
     let e = |e: anyhow::Error| format!("{e:#}");
+    let wait_mark = || {
+        if mark_waits {
+            mark("h.wait");
+        }
+    };
     if inputs.is_empty() {
         return Err("No input files provided".into());
     }
@@ -76,6 +96,7 @@ pub fn create_archive(inputs: &[PathBuf], output: &Path, p: &Params) -> Result<(
                 }
                 if !ref_done && current.is_some() {
                     compressor.drain().map_err(e)?;
+                    wait_mark();
                     ref_done = true;
                 }
                 if let Some(prev) = current.take() {
@@ -93,13 +114,25 @@ pub fn create_archive(inputs: &[PathBuf], output: &Path, p: &Params) -> Result<(
             }
         }
         compressor.drain().map_err(e)?;
+        wait_mark();
         compressor.sync_and_flush("AAA#0_REF").map_err(e)?;
-        for f in &inputs[1..] {
+        wait_mark();
+        for _ in extra_syncs.iter().filter(|&&x| x == 0) {
+            mark("h.extra");
+            compressor.sync_and_flush("X").map_err(e)?;
+            wait_mark();
+        }
+        for (fi, f) in inputs.iter().enumerate().skip(1) {
             let mut it = MultiFileIterator::new(vec![f.clone()]).map_err(e)?;
             while let Some((sample, contig, seq)) = it.next_contig().map_err(e)? {
                 if !seq.is_empty() {
                     compressor.push(sample, contig, seq).map_err(e)?;
                 }
+            }
+            for _ in extra_syncs.iter().filter(|&&x| x == fi) {
+                mark("h.extra");
+                compressor.sync_and_flush("X").map_err(e)?;
+                wait_mark();
             }
         }
     }
